@@ -42,6 +42,10 @@ use std::{
 mod protocol;
 mod x25519_spec;
 
+#[cfg(litep2p_verif)]
+#[path = "../../verif/c02.rs"]
+pub(crate) mod verif_c02;
+
 mod handshake_schema {
     include!(concat!(env!("OUT_DIR"), "/noise.rs"));
 }
@@ -57,7 +61,10 @@ const NOISE_PARAMETERS: &str = "Noise_XX_25519_ChaChaPoly_SHA256";
 pub(crate) const STATIC_KEY_DOMAIN: &str = "noise-libp2p-static-key:";
 
 /// Maximum Noise message size.
-const MAX_NOISE_MSG_LEN: usize = 65536;
+///
+/// The Noise specification (and `snow`) limits messages to 65535 bytes and the frame length
+/// prefix is a `u16`, so a message of 65536 bytes can neither be encrypted nor framed.
+const MAX_NOISE_MSG_LEN: usize = 65535;
 
 /// Space given to the encryption buffer to hold key material.
 const NOISE_EXTRA_ENCRYPT_SPACE: usize = 16;
